@@ -115,7 +115,7 @@ unsafe impl<A: BumpAllocatorCore> Allocator for WithoutShrink<A> {
         unsafe fn shrink_unfit<A: BumpAllocatorCore>(
             this: &WithoutShrink<A>,
             ptr: NonNull<u8>,
-            old_layout: Layout,
+            _old_layout: Layout,
             new_layout: Layout,
         ) -> Result<NonNull<[u8]>, AllocError> {
             let new_ptr = this.0.allocate(new_layout)?.cast::<u8>();
